@@ -233,7 +233,7 @@ class Scratch:
 def make_cases(tier, seed):
     g = Rng(seed * 7919 + 15)
     cases = []
-    nrun = 26 if tier == "quick" else 160
+    nrun = 26 if tier == "quick" else 480
     for i in range(nrun):
         nodes, ppn = LAYOUTS[i % len(LAYOUTS)]
         kind = i % 5
